@@ -11,6 +11,8 @@ import (
 	"time"
 
 	"github.com/mgtv-tech/redis-GunYu/config"
+	"github.com/mgtv-tech/redis-GunYu/pkg/redis/checkpoint"
+	"github.com/mgtv-tech/redis-GunYu/pkg/redis/client"
 	usync "github.com/mgtv-tech/redis-GunYu/pkg/sync"
 	"github.com/mgtv-tech/redis-GunYu/syncer"
 
@@ -106,6 +108,11 @@ type PipeCfg struct {
 	// cluster target
 	ClusterAddrs []string
 	NoRestore    bool // snapshot replay by native commands instead of RESTORE
+	// the tool's whole start path: a process start runs syncer.newOutput's checkpoint.UpdateCheckpoint (index entry,
+	// "none yet" marker with a modification time) before StartPoint; AfterFullSync: the stream follows a full sync,
+	// which ended with checkpoint.SetCheckpoint(stream base) on a fresh connection (database 0, with modification time)
+	StartPath     bool
+	AfterFullSync bool
 }
 
 func (c PipeCfg) String() string {
@@ -113,6 +120,9 @@ func (c PipeCfg) String() string {
 		c.BatchCount, c.BatchBytes, c.BatchTicker, c.Keepalive, c.CpTicker, c.Pipeline, c.Txn, c.Resume, c.DBM.TargetDb, c.DBM.TargetDbMap, c.BufSize)
 	if c.Bisync {
 		s += fmt.Sprintf(" bisync{mode=%s parallelism=%d}", c.Mode, c.Parallelism)
+	}
+	if c.StartPath {
+		s += fmt.Sprintf(" startpath{afterFullSync=%v}", c.AfterFullSync)
 	}
 	if f := c.Filters; f != nil {
 		s += fmt.Sprintf(" filters{cmd=%q db=%v pblack=%q pwhite=%q swhite=%v sblack=%v}", f.CmdBlacklist, f.DbBlacklist, f.PrefixBlack, f.PrefixWhite, f.SlotWhite, f.SlotBlack)
@@ -253,6 +263,7 @@ type incarnation struct {
 	startIdx int   // first item fed to this incarnation
 	startDB  int   // DB returned by StartPoint
 	fedTo    int64 // absolute offset fed so far
+	pathDone bool  // the start path that precedes the output object has completed (always true without StartPath)
 	mu       sync.Mutex
 }
 
@@ -277,21 +288,22 @@ type bizEntry struct {
 }
 
 type PipeSim struct {
-	reuse  *syncer.RedisOutput // output object the next incarnation runs on (in-process restart)
-	r      *Run
-	cfg    PipeCfg
-	st     *Stream
-	srv    *simredis.Server
-	runID  string
-	cpName string
-	inc    *incarnation
-	incs   []*incarnation
-	logPos int
-	biz    []bizEntry
-	cps    []cpWrite
-	viol   *Violation
-	viols  []*Violation
-	prop   string
+	reuse    *syncer.RedisOutput // output object the next incarnation runs on (in-process restart)
+	pathEver bool                // a start path has completed at least once (the full sync it follows is over)
+	r        *Run
+	cfg      PipeCfg
+	st       *Stream
+	srv      *simredis.Server
+	runID    string
+	cpName   string
+	inc      *incarnation
+	incs     []*incarnation
+	logPos   int
+	biz      []bizEntry
+	cps      []cpWrite
+	viol     *Violation
+	viols    []*Violation
+	prop     string
 }
 
 func NewPipeSim(r *Run, prop string, cfg PipeCfg, st *Stream) *PipeSim {
@@ -302,6 +314,24 @@ func NewPipeSim(r *Run, prop string, cfg PipeCfg, st *Stream) *PipeSim {
 	ps.runID = "5f3c0a9e1b2d4c6f8a7b9c0d1e2f3a4b5c6d7e8f"
 	ps.cpName = "redis-gunyu-checkpoint-sim"
 	return ps
+}
+
+// startPath is what a process start does on the target before the output exists (syncer.newOutput -> updateCheckpoint),
+// through the real code; first: also what the end of the preceding full sync left behind (RedisOutput.setCheckpoint).
+func (ps *PipeSim) startPath(first bool) error {
+	cli, err := client.NewRedis(ps.cfg.outputConfig(ps.runID, ps.cpName).Redis)
+	if err != nil {
+		return err
+	}
+	defer cli.Close()
+	// the ids the input reports: master_replid and master_replid2 (all zeros when the source never failed over)
+	if err = checkpoint.UpdateCheckpoint(cli, ps.cpName, []string{ps.runID, strings.Repeat("0", 40)}); err != nil {
+		return err
+	}
+	if first && ps.cfg.AfterFullSync {
+		err = checkpoint.SetCheckpoint(cli, &checkpoint.CheckpointInfo{Key: ps.cpName, RunId: ps.runID, Offset: ps.st.Base, Version: config.Version})
+	}
+	return err
 }
 
 // setViolation records a violation; the run's verdict is the first one whose rule belongs to the
@@ -327,6 +357,7 @@ func (ps *PipeSim) startIncarnation() {
 	ctx, cancel := context.WithCancel(context.Background())
 	in := &incarnation{id: id, ctx: ctx, cancel: cancel}
 	ps.r.Net.SetTag(id)
+	reused := ps.reuse != nil
 	if ps.reuse != nil {
 		// restart inside the same process: RedisInput.Run calls run() again with the SAME output object, whatever it
 		// remembers in memory (local checkpoint, bidirectional sequence/offset, frontier-miss fast path) is still there
@@ -337,7 +368,22 @@ func (ps *PipeSim) startIncarnation() {
 	ps.inc = in
 	ps.incs = append(ps.incs, in)
 	ps.r.Logf("start incarnation %d", id)
+	fresh := !reused
+	in.pathDone = !(ps.cfg.StartPath && fresh)
 	go func() {
+		if ps.cfg.StartPath && fresh {
+			if err := ps.startPath(!ps.pathEver); err != nil {
+				in.mu.Lock()
+				in.spErr = err
+				in.phase = 2
+				in.mu.Unlock()
+				return
+			}
+			ps.pathEver = true
+			in.mu.Lock()
+			in.pathDone = true
+			in.mu.Unlock()
+		}
 		sp, err := in.ro.StartPoint(ctx, []string{ps.runID})
 		in.mu.Lock()
 		in.sp, in.spErr = sp, err
